@@ -6,11 +6,11 @@ STORAGE = {"pkg": "./pkg/storage", "files": ["pkg/storage/h_common.go", "pkg/sto
 
 LOADER = {"pkg": "./pkg/chart/v2/loader", "files": ["pkg/chart/v2/loader/h_c16_names.go"]}
 
-RELUTIL = {"pkg": "./pkg/release/util", "files": ["pkg/release/util/h_c08_part.go"]}
+RELUTIL = {"pkg": "./pkg/release/util", "files": ["pkg/release/util/h_c08_part.go", "pkg/release/util/h_c08_splitorder.go"]}
 
 REPOPKG = {"pkg": "./pkg/repo", "files": ["pkg/repo/h_c18_index.go"]}
 
-ACTION = {"pkg": "./pkg/action", "files": ["pkg/action/h_common.go", "pkg/action/h_smoke.go", "pkg/action/h_c01_hist.go", "pkg/action/h_c06_dryrun.go", "pkg/action/h_c12_hooks.go", "pkg/action/h_c07_own.go", "pkg/action/h_c14_schema.go", "pkg/action/h_tree.go", "pkg/action/h_c13_reuse.go", "pkg/action/h_c05_order.go", "pkg/action/h_c09_conc.go", "pkg/action/h_c02_uninstall.go"]}
+ACTION = {"pkg": "./pkg/action", "files": ["pkg/action/h_common.go", "pkg/action/h_smoke.go", "pkg/action/h_c01_hist.go", "pkg/action/h_c06_dryrun.go", "pkg/action/h_c12_hooks.go", "pkg/action/h_c07_own.go", "pkg/action/h_c14_schema.go", "pkg/action/h_tree.go", "pkg/action/h_c13_reuse.go", "pkg/action/h_c13_deployed.go", "pkg/action/h_c05_order.go", "pkg/action/h_c09_conc.go", "pkg/action/h_c02_uninstall.go"]}
 
 CHARTUTIL = {"pkg": "./pkg/chart/v2/util", "files": ["pkg/chart/v2/util/h_values.go"]}
 
@@ -32,13 +32,13 @@ CHECKS = {
         "bounds": {}, "assumptions": [],
     },
     "C08": {
-        "runs": [dict(RELUTIL, entries=["H08Partition", "H08Order"], bounds_quick={"files": 1, "docs": 2, "kinds": 5, "odocs": 3}, bounds_thorough={"files": 2, "docs": 2, "kinds": 7, "odocs": 4},
+        "runs": [dict(RELUTIL, entries=["H08Partition", "H08Order", "H08SplitOrder"], bounds_quick={"files": 1, "docs": 2, "kinds": 5, "odocs": 3, "docindex": 9999}, bounds_thorough={"files": 2, "docs": 2, "kinds": 7, "odocs": 4, "docindex": 999999},
                       optional_sites=["partition/partials-never-applied"]),
                  dict(pkg="./pkg/kube", files=["pkg/kube/h_c02_update.go", "pkg/kube/h_c08_barrier.go"], entries=["H08Barrier"], bounds_quick={"objects": 3}, bounds_thorough={"objects": 4})],
         "bounds": {}, "assumptions": [],
     },
     "C15": {
-        "runs": [dict(pkg="./pkg/chart/v2/util", files=["pkg/chart/v2/util/h_c15_roundtrip.go"], entries=["H15RoundTrip", "H15Name"], bounds_quick={"bodylen": 3, "namelen": 1}, bounds_thorough={"bodylen": 4, "namelen": 2})],
+        "runs": [dict(pkg="./pkg/chart/v2/util", files=["pkg/chart/v2/util/h_c15_roundtrip.go"], entries=["H15RoundTrip", "H15Name", "H15Tree"], bounds_quick={"bodylen": 3, "namelen": 1}, bounds_thorough={"bodylen": 4, "namelen": 2})],
         "bounds": {}, "assumptions": [],
     },
     "C16": {
@@ -78,7 +78,8 @@ CHECKS = {
         "bounds": {}, "assumptions": [],
     },
     "C05": {
-        "runs": [dict(ACTION, entries=["H05Order"], limits={"max_instrs": 20000000, "max_decisions": 2000})],
+        "runs": [dict(ACTION, entries=["H05Order"], limits={"max_instrs": 20000000, "max_decisions": 2000}),
+                 dict(RELUTIL, entries=["H08SplitOrder"], bounds_quick={"docindex": 9999}, bounds_thorough={"docindex": 999999})],
         "bounds": {}, "assumptions": [],
     },
     "C06": {
@@ -94,7 +95,7 @@ CHECKS = {
         "bounds": {}, "assumptions": [],
     },
     "C13": {
-        "runs": [dict(ACTION, entries=["H13Reuse", "H13Rollback"], bounds_quick={"depth": 1, "slim": 1, "defdepth": 0}, bounds_thorough={"depth": 2, "slim": 1, "defdepth": 1}, limits={"max_instrs": 20000000, "max_decisions": 2000})],
+        "runs": [dict(ACTION, entries=["H13Reuse", "H13Rollback", "H13Deployed"], bounds_quick={"depth": 1, "slim": 1, "defdepth": 0}, bounds_thorough={"depth": 2, "slim": 1, "defdepth": 1}, limits={"max_instrs": 20000000, "max_decisions": 2000})],
         "bounds": {}, "assumptions": [],
     },
     "C14": {
